@@ -762,10 +762,51 @@ def r6_quotes(prog, res):
     loops = [x for x in f.walk() if x["k"] == "While"]
     # is the zero-iteration path excluded by an explicit empty-string test that returns?
     empty_guard = False
+    # variables holding the length of the parameter: initialised from strlen(<param>)
+    pd = f.params[0]["d"] if f.params else None
+    lens = set()
+    for x in f.walk():
+        if x["k"] == "Var" and x.get("ch"):
+            i = strip(x["ch"][0])
+            if i is not None and i["k"] == "Call" and (i.get("fn") or "").split("::")[-1] in ("strlen", "__builtin_strlen") and \
+                    strip(i["ch"][0]) is not None and strip(i["ch"][0]).get("d") == pd:
+                lens.add(x["d"])
+
+    def is_empty_test(c):
+        """c is true exactly when the string is empty:  len == 0, !len, *in == 0, !*in"""
+        c = strip(c)
+        if c is None:
+            return False
+        if c["k"] == "Paren":
+            return is_empty_test(c["ch"][0])
+        if c["k"] == "Binary" and c.get("op") == "==":
+            a, b = strip(c["ch"][0]), strip(c["ch"][1])
+            for u, v in ((a, b), (b, a)):
+                if v is not None and v.get("val") == 0 and u is not None:
+                    while u["k"] in ("Paren", "Cast") and u.get("ch"):
+                        u = strip(u["ch"][0])
+                    if u["k"] == "Ref" and u.get("d") in lens:
+                        return True
+                    if u["k"] == "Unary" and u.get("op") == "*" and strip(u["ch"][0]) is not None and strip(u["ch"][0]).get("d") == pd:
+                        return True
+        if c["k"] == "Unary" and c.get("op") == "!":
+            u = strip(c["ch"][0])
+            if u is not None and u["k"] == "Ref" and u.get("d") in lens:
+                return True
+            if u is not None and u["k"] == "Unary" and u.get("op") == "*" and strip(u["ch"][0]) is not None and strip(u["ch"][0]).get("d") == pd:
+                return True
+        return False
+
+    def disjuncts(c):
+        c = strip(c)
+        while c is not None and c["k"] == "Paren":
+            c = strip(c["ch"][0])
+        if c is not None and c["k"] == "Binary" and c.get("op") == "||":
+            return disjuncts(c["ch"][0]) + disjuncts(c["ch"][1])
+        return [c]
     for x in f.walk():
         if x["k"] == "If" and any(y["k"] == "Return" for y in walk(x["ch"][1])):
-            txt = re.sub(r"[\s()]", "", expr_str(x["ch"][0]))
-            if re.search(r"(^|\|\|)inlen==0(\|\||$)", txt) or re.search(r"(^|\|\|)!inlen(\|\||$)", txt) or re.search(r"(^|\|\|)\*in==0", txt):
+            if any(is_empty_test(d) for d in disjuncts(x["ch"][0])):
                 if loops and f.cfg.dominates(f.first_pos(x["ch"][0]), f.first_pos(loops[0]["ch"][0])):
                     empty_guard = True
     bad = []
